@@ -574,35 +574,26 @@ Lemma step_song_break_flag ec : keeps_break_flag ec ->
   forall t s s', step_song ec t s = Ok s' -> s_break_flag s' = s_break_flag s.
 Proof.
   intros Hec t s s'. destruct t; cbn [step_song];
-    try (intros E; injection E as <-; reflexivity).
-  - (* TNote *) unfold exec_note, emit_note.
-    repeat match goal with |- context [if ?b then _ else _] => destruct b end;
-      try discriminate; intros E; injection E as <-; reflexivity.
-  - (* TNoteN *) unfold exec_note_n, emit_note.
-    repeat match goal with |- context [if ?b then _ else _] => destruct b end;
-      try discriminate; intros E; injection E as <-; reflexivity.
-  - (* TVelocity *) destruct (ino >? 0); [discriminate|]. intros E; injection E as <-; reflexivity.
-  - (* THarmonyEnd *) unfold exec_harmony_end. destruct (s_harmony_flag s); intros E; injection E as <-; reflexivity.
-  - (* TDiv *)
-    match goal with |- context [ec children (Ok ?x)] => destruct (ec children (Ok x)) as [s2| | |] eqn:E2 end;
-      cbn [bind]; try discriminate.
-    intros E; injection E as <-. apply Hec in E2. exact E2.
-  - (* TSub *)
-    destruct (ec children (Ok s)) as [s2| | |] eqn:E2; cbn [bind]; try discriminate.
-    intros E; injection E as <-. apply Hec in E2. exact E2.
-  - (* TTrack *) destruct (_ || _); [discriminate|]. intros E; injection E as <-.
-    destruct (s_octave_once s =? 0); reflexivity.
-  - (* TVoice *) unfold exec_voice. destruct args as [|a [|b r]]; intros E; injection E as <-; reflexivity.
-  - (* TTime *) unfold exec_get_time, runtime_error.
-    destruct args as [|a [|b [|c r]]]; intros E; injection E as <-; cbn [s_break_flag upd_cur s_set_tracks];
-      try reflexivity; apply add_log_break_flag.
-  - (* TPlayFrom *) unfold exec_get_time, runtime_error.
-    destruct args as [|a [|b [|c r]]]; intros E; injection E as <-; cbn [s_break_flag s_set_play_from];
-      try reflexivity; apply add_log_break_flag.
-  - (* TTimeSignature *) unfold exec_time_signature, runtime_error.
-    destruct args as [|a [|b r]]; intros E; injection E as <-; try apply add_log_break_flag.
-    cbn [s_break_flag upd_cur s_set_tracks s_set_time].
-    match goal with |- context [if ?b then s else _] => destruct b end; [reflexivity|apply add_log_break_flag].
+  first
+  [ solve [intros E; injection E as <-; reflexivity]
+  | (* notes *)
+    solve [unfold exec_note, exec_note_n, emit_note;
+           repeat match goal with |- context [if ?b then _ else _] => destruct b end;
+           try discriminate; intros E; injection E as <-; reflexivity]
+  | (* one guard *)
+    solve [unfold exec_harmony_end, change_cur_track, settle_octave_once;
+           repeat match goal with |- context [if ?b then _ else _] => destruct b end;
+           try discriminate; intros E; injection E as <-; reflexivity]
+  | (* Sub / Div *)
+    solve [match goal with |- context [ec ?X (Ok ?x)] => destruct (ec X (Ok x)) as [s2| | |] eqn:E2 end;
+           cbn [bind]; try discriminate; intros E; injection E as <-; apply Hec in E2; exact E2]
+  | (* argument lists *)
+    solve [unfold exec_voice, exec_get_time, exec_time_signature, runtime_error;
+           match goal with |- context [match ?a with [] => _ | _ => _ end] => destruct a as [|a0 [|a1 [|a2 ar]]] end;
+           intros E; injection E as <-;
+           cbn [s_break_flag upd_cur s_set_tracks s_set_time s_set_play_from];
+           repeat match goal with |- context [if ?b then _ else _] => destruct b end;
+           rewrite ?add_log_break_flag; reflexivity] ].
 Qed.
 
 Definition flag_kept (b : Z) (r : res song) : Prop := match r with Ok s => s_break_flag s = b | _ => True end.
